@@ -357,6 +357,23 @@ MUTANTS = [
  ('C14-10', 'C14', 'MIP/mip/blocks.py',
   "    if text[:20].split()[0].lower() == 'message:':",
   "    if text[:20].split()[0] == 'MESSAGE:':"),
+ # ---- C15
+ ('C15-1', 'C15', K + 'FileHandlers/Parser/ParseMCNPCell.py',
+  "        return material, geometry, (options + ' ' + but_options)",
+  "        return material, geometry, (but_options + ' ' + options)"),
+ ('C15-2', 'C15', K + 'FileHandlers/Parser/ParseMCNPCell.py',
+  "            elif 'rho' in elt:\n                # only relevant for LIKE n BUT cells\n                keywords['density'] = kw_list.pop()",
+  "            elif 'rho' in elt:\n                # only relevant for LIKE n BUT cells\n                kw_list.pop()"),
+ ('C15-3', 'C15', K + 'FileHandlers/Parser/ParseMCNPCell.py',
+  "        match_like = self.LIKE_RE.search(parsed_cell[1].lower())\n        while match_like:",
+  "        match_like = self.LIKE_RE.search(parsed_cell[1].lower())\n        for _once in ([1] if match_like else []):"),
+ ('C15-4', 'C15', K + 'FileHandlers/Parser/ParseMCNPCell.py',
+  "                for particle in elt.partition(':')[2].split(','):\n                    importances[particle] = importance\n                keywords['importance'] = max(importances.values())",
+  "                importances[len(importances)] = importance\n                keywords['importance'] = max(importances.values())"),
+ ('C15-5', 'C15', K + 'FileHandlers/Parser/ParseMCNPCell.py',
+  "        if kws['material'] is not None:\n            material_id = kws['material']",
+  "        if kws['material'] is not None and density is None:\n            material_id = kws['material']"),
+ # (C15-6, a lazy 'like.*?but', is equivalent unless 'but' occurs twice)
 ]
 
 
